@@ -169,6 +169,36 @@ Definition env_rel (rm : menv) (rc : cenv) : Prop :=
 Lemma env_rel_loop rm rc i : env_rel rm rc -> env_rel (with_mi rm i) (with_ci rc i).
 Proof. intros (H1 & H2 & H3 & H4). repeat split; simpl; auto. Qed.
 
+(* ---------- ranges ---------- *)
+(* the values the generator loops over are the Modelica range, for every non-zero step *)
+Lemma range_values_modelica lo st hi : st <> 0%Z -> range_values lo st hi = modelica_range lo st hi.
+Proof.
+  intro Hst. unfold range_values, modelica_range, arange.
+  destruct (0 <? st)%Z eqn:Hp.
+  - apply Z.ltb_lt in Hp.
+    assert ((st <? 0)%Z = false) as -> by (apply Z.ltb_ge; lia).
+    rewrite andb_false_l, orb_false_r, andb_true_l.
+    replace (hi + 1 - lo + st - 1)%Z with ((hi - lo) + 1 * st)%Z by lia.
+    rewrite Z.div_add by lia.
+    destruct (hi <? lo)%Z eqn:Hlt; [| reflexivity].
+    apply Z.ltb_lt in Hlt.
+    assert ((hi - lo) / st < 0)%Z by (apply Z.div_lt_upper_bound; lia).
+    replace (Z.to_nat ((hi - lo) / st + 1)) with 0%nat by lia. reflexivity.
+  - apply Z.ltb_ge in Hp.
+    assert ((st <? 0)%Z = true) as -> by (apply Z.ltb_lt; lia).
+    rewrite andb_false_l, orb_false_l, andb_true_l.
+    replace (lo - (hi + -1) + - st - 1)%Z with ((lo - hi) + 1 * (- st))%Z by lia.
+    rewrite Z.div_add by lia.
+    assert ((hi - lo) / st = (lo - hi) / (- st))%Z as E.
+    { rewrite <- (Z.div_opp_opp (lo - hi) (- st)) by lia.
+      rewrite Z.opp_involutive. f_equal. lia. }
+    rewrite E.
+    destruct (lo <? hi)%Z eqn:Hlt; [| reflexivity].
+    apply Z.ltb_lt in Hlt.
+    assert ((lo - hi) / (- st) < 0)%Z by (apply Z.div_lt_upper_bound; lia).
+    replace (Z.to_nat ((lo - hi) / - st + 1)) with 0%nat by lia. reflexivity.
+Qed.
+
 Section Sound.
 Variable F : positive -> Qc -> Qc.
 Variable T : table.
@@ -378,18 +408,19 @@ Qed.
 Definition eqn_wf (q : eqn) : Prop :=
   match q with
   | QIf brs els => Forall (fun b => length (snd b) = length els) brs
-  | _ => True
+  | QFor _ st _ _ => st <> 0%Z
+  | QSimple _ => True
   end.
 Definition eqn_ne_free (q : eqn) : bool :=
   match q with
   | QSimple s => seqn_ne_free s
   | QIf brs els => forallb (fun b => ne_free (fst b) && forallb seqn_ne_free (snd b)) brs && forallb seqn_ne_free els
-  | QFor _ _ body => forallb seqn_ne_free body
+  | QFor _ _ _ body => forallb seqn_ne_free body
   end.
 
 Lemma tr_eqn_total q : eqn_wf q -> (ne_ok T = true \/ eqn_ne_free q = true) -> exists r, tr_eqn T q = Ok r.
 Proof.
-  destruct q as [s | brs els | lo hi body]; simpl; intros W N.
+  destruct q as [s | brs els | lo st hi body]; simpl; intros W N.
   - destruct (tr_seqn_total s N) as [c ->]. eexists; reflexivity.
   - assert (forallb (fun b => Nat.eqb (length (snd b)) (length els)) brs = true) as ->.
     { apply forallb_forall. intros b Hb. rewrite Forall_forall in W. apply Nat.eqb_eq. apply W. exact Hb. }
@@ -406,7 +437,7 @@ Proof.
         repeat split; right; assumption. }
       destruct (tr_total c N1) as [cc ->]. destruct (tr_seqns_total blk N2) as [cb ->].
       destruct (IH N3) as [rest ->]. eexists; reflexivity.
-  - destruct (tr_seqns_total body N) as [cb ->]. eexists; reflexivity.
+  - apply Z.eqb_neq in W. rewrite W. destruct (tr_seqns_total body N) as [cb ->]. eexists; reflexivity.
 Qed.
 
 Lemma Forall2_app_agrees a b c d :
@@ -426,7 +457,7 @@ Lemma eqn_sound rm rc (HE : env_rel rm rc) q r ms :
   tr_eqn T q = Ok r -> m_res F q rm = Some ms ->
   exists cs, ca_res F r rc = Some cs /\ Forall2 agrees ms cs.
 Proof.
-  destruct q as [s | brs els | lo hi body]; simpl; intros Htr Hm.
+  destruct q as [s | brs els | lo st hi body]; simpl; intros Htr Hm.
   - destruct (tr_seqn T s) as [c |] eqn:Es; [| discriminate Htr]. injection Htr as <-.
     injection Hm as <-. simpl. eexists; split; [reflexivity |].
     constructor; [| constructor]. intros d Hd. eapply seqn_sound; eassumption.
@@ -452,8 +483,9 @@ Proof.
         { destruct (Qc_eq_dec x 0) as [E | N]; [exact E |]. apply Hb in N. discriminate N. }
         apply qeqb_true in Z. rewrite Z.
         apply (IH rr eq_refl ms Hm).
-  - destruct (tr_seqns T body) as [cb |] eqn:Eb; [| discriminate Htr]. injection Htr as <-.
-    injection Hm as <-. simpl. eexists; split; [reflexivity |].
+  - destruct (st =? 0)%Z eqn:Est; [discriminate Htr |]. apply Z.eqb_neq in Est.
+    destruct (tr_seqns T body) as [cb |] eqn:Eb; [| discriminate Htr]. injection Htr as <-.
+    injection Hm as <-. simpl. rewrite (range_values_modelica lo st hi Est). eexists; split; [reflexivity |].
     revert cb Eb. induction body as [| s rest IH]; intros cb Eb; simpl in Eb.
     + injection Eb as <-. constructor.
     + destruct (tr_seqn T s) as [c |] eqn:Es; [| discriminate Eb].
@@ -491,6 +523,12 @@ Definition prefix_table : table :=
 Definition good_table : table :=
   [(K_mul, (M_mul, true)); (K_add, (M_add, true)); (K_sub, (M_sub, true)); (K_div, (M_truediv, true));
    (K_pow, (M_pow, true)); (K_gt, (M_gt, true)); (K_lt, (M_lt, true)); (K_le, (M_le, true));
+   (K_ge, (M_ge, true)); (K_ne, (M_ne, true)); (K_eq, (M_eq, true)); (K_min, (M_fmin, true));
+   (K_max, (M_fmax, true)); (K_abs, (M_fabs, true)); (K_and, (M_mul, true)); (K_or, (M_add, true))].
+(* OP_MAP before e57542a: no "<>" row *)
+Definition pre_ne_table : table :=
+  [(K_mul, (M_mul, true)); (K_add, (M_add, true)); (K_sub, (M_sub, true)); (K_div, (M_truediv, true));
+   (K_pow, (M_pow, true)); (K_gt, (M_gt, true)); (K_lt, (M_lt, true)); (K_le, (M_le, true));
    (K_ge, (M_ge, true)); (K_eq, (M_eq, true)); (K_min, (M_fmin, true));
    (K_max, (M_fmax, true)); (K_abs, (M_fabs, true)); (K_and, (M_mul, true)); (K_or, (M_add, true))].
 Lemma good_table_ok : table_ok good_table = true.
@@ -499,22 +537,32 @@ Lemma prefix_division_fails :
   tr prefix_table (EBin BDiv (ERef (RVar 1%positive)) (ERef (RVar 2%positive))) = Err E_nomethod.
 Proof. vm_compute. reflexivity. Qed.
 
-(* ---------- three-part ranges: known, unrepaired ---------- *)
-Lemma range3_differs : impl_range3 1 2 5 = [1; 6]%Z /\ modelica_range3 1 2 5 = [1; 3; 5]%Z.
-Proof. vm_compute. split; reflexivity. Qed.
-(* the two-part range of the model is the step-1 arange the code computes *)
-Lemma loop_values_arange lo hi : loop_values lo hi = arange lo (hi + 1) 1.
+(* ---------- ranges, continued ---------- *)
+(* the two-part range lo:hi (step 1) visits exactly lo..hi *)
+Lemma range_values_step1 lo hi : range_values lo 1 hi = loop_values lo hi.
 Proof.
-  unfold loop_values, arange. change (0 <? 1)%Z with true. cbv iota.
+  unfold range_values, loop_values, arange. change (0 <? 1)%Z with true. cbv beta iota zeta.
   rewrite Z.div_1_r. replace (hi + 1 - lo + 1 - 1)%Z with (hi + 1 - lo)%Z by lia.
   generalize (Z.to_nat (hi + 1 - lo)). intro n. revert lo.
   induction n as [| n IH]; intro lo; [reflexivity |].
-  simpl zrange. rewrite IH. cbn [seq map]. rewrite <- seq_shift, map_map.
+  simpl zrange. rewrite <- IH. cbn [seq map]. rewrite <- seq_shift, map_map.
   f_equal; [lia | apply map_ext; intro k; lia].
 Qed.
-
-(* "<>" is not in OP_MAP: known, unrepaired *)
-Lemma good_table_ne_fails :
-  ne_ok good_table = false /\
-  tr good_table (EBin BNe (ERef (RVar 1%positive)) (ERef (RVar 2%positive))) = Err E_notable.
+Lemma range_values_step1_In lo hi v : In v (range_values lo 1 hi) <-> (lo <= v <= hi)%Z.
+Proof. rewrite range_values_step1. apply loop_values_In. Qed.
+(* concrete instances: positive step not dividing the span, negative step, empty *)
+Lemma range_examples :
+  range_values 1 2 6 = [1; 3; 5]%Z /\ range_values 5 (-2) 2 = [5; 3]%Z /\ range_values 1 (-1) 3 = [] /\
+  range_values 3 1 2 = [].
+Proof. vm_compute. repeat split; reflexivity. Qed.
+(* the reading before 3facb7b differs from Modelica *)
+Lemma old_range3_differs : old_range3 1 2 5 = [1; 6]%Z /\ modelica_range 1 2 5 = [1; 3; 5]%Z.
 Proof. vm_compute. split; reflexivity. Qed.
+
+Lemma good_table_total : ne_ok good_table = true /\ table_total good_table = true.
+Proof. vm_compute. split; reflexivity. Qed.
+(* before e57542a "<>" was not in OP_MAP *)
+Lemma pre_ne_table_fails :
+  table_ok pre_ne_table = true /\ ne_ok pre_ne_table = false /\
+  tr pre_ne_table (EBin BNe (ERef (RVar 1%positive)) (ERef (RVar 2%positive))) = Err E_notable.
+Proof. vm_compute. repeat split; reflexivity. Qed.
